@@ -75,7 +75,7 @@ def d1(cx: Cx, ob: Ob) -> None:
             if new is None:
                 ob.undecide(f"{fname}: the new URI prefix does not come from {helper}")
                 continue
-            alg = SetAlg(rec, "uri_prefix", "uri_prefix_synonyms", {new: "new"})
+            alg = SetAlg(rec, "uri_prefix", "uri_prefix_synonyms", {new: "new"}, summary=s)
             for ev in stores:
                 if not alg.apply_store(ev.a, ev.b):
                     pass
@@ -310,6 +310,20 @@ def d5(cx: Cx, ob: Ob) -> None:
             if is_const(t, None):
                 continue
             key = None
+            if op(t) == "call" and t[1] == ("builtin", "next") and len(t[2]) == 2 and is_const(t[2][1], None) and op(t[2][0]) == "comp" and len(t[2][0][3]) == 1:
+                # next((upgrades[k] for k in [canonical, *synonyms] if k in upgrades), None): first hit in list order
+                comp = t[2][0]
+                tgt, it, ifs = comp[3][0]
+                if comp[2] == ("item", ups, tgt) and ifs == (("cmp", "in", tgt, ups),) and op(it) in ("list", "tuple"):
+                    pos = 0
+                    for e in it[1]:
+                        inner = e[1] if op(e) == "star" else e
+                        if op(inner) == "attr" and inner[1] == rec:
+                            order.append((pos, inner[2]))
+                        else:
+                            order.append((pos, f"?{show(inner)[:20]}"))
+                        pos += 1
+                    continue
             if op(t) == "item" and t[1] == ups:
                 key = t[2]
             elif op(t) == "call" and callee_name(t) == "get" and op(t[1]) == "attr" and t[1][1] == ups and t[2]:
